@@ -50,6 +50,29 @@ type Term struct {
 	p2   int
 	name string
 	vars map[*Term]bool // lazily computed free variables (for slicing); nil until asked
+	pure int8           // 0 unknown, 1 only Bool/BitVec sorts below, 2 otherwise
+}
+
+// pureBV reports whether t and all its subterms are of sort Bool / BitVec.
+func (t *Term) pureBV() bool {
+	if t.pure != 0 {
+		return t.pure == 1
+	}
+	ok := t.s.K == 'b' || t.s.K == 'v'
+	if ok {
+		for _, a := range t.args {
+			if !a.pureBV() {
+				ok = false
+				break
+			}
+		}
+	}
+	if ok {
+		t.pure = 1
+	} else {
+		t.pure = 2
+	}
+	return ok
 }
 
 type termKey struct {
